@@ -140,7 +140,37 @@ def try_from_stores_input(cx):
               where=b.file, found='; '.join(show(cx.aggval(l_)) for l_ in lits))
 
 
+def index_of_rule(cx):
+    """shared with C16 (tolerance zones are looked up through it): the search compares numerically - under a total order -0.0 sorts before a +0.0 breakpoint"""
+    b = cx.fn(f'{DD}::index_of')
+    if b:
+        cmps = [cx.retval(cl) for cl in cx.facts.closures_of(b.name)]
+        ok = len(cmps) >= 1 and any(match('(unwrap (call f64::partial_cmp (param 2) (field cap:value (param 1))))', c) is not None for c in cmps) and \
+            not any(find('(call f64::total_cmp _ _)', c) is not None for c in cmps)
+        cx.ob('EXPR', 'DiscreteDomain::index_of:comparator', ok, 'index_of searches with the numeric comparison partial_cmp(v, value) (a value equal to a breakpoint, +0.0 and -0.0 alike, is an exact hit)',
+              where=b.file, found='; '.join(show(c) for c in cmps))
+
+
+def series_extra_rules(cx):
+    b = cx.fn(f'{S1}::resampled_x')
+    if b:
+        cx.expect('EXPR', 'Series1::resampled_x', cx.retval(b),
+                  '(call *Series1::resampled_n (param self) (cast _ (call f64::ceil (add 1.0 (div (sub (call *Series1::x_max (param self)) (call *Series1::x_min (param self))) (param x_spacing))))))',
+                  'resampled_x takes ceil(span / spacing + 1) points (rounded UP: never fewer than two points for a positive span, spacing never larger than asked)', where=b.file)
+    b = cx.fn(f'{S1}::bounds_at_y0')
+    if b:
+        sd = b.calls('func1::series1::sort_and_dedup')
+        XB = '(call slice::concat (agg array (0 (call *Series1::y_crossings (param self) 0.0)) (1 (veclit (agg array (0 (call *Series1::x_min (param self))) (1 (call *Series1::x_max (param self))))))))'
+        XB2 = '(call slice::concat (agg array (0 (veclit (agg array (0 (call *Series1::x_min (param self))) (1 (call *Series1::x_max (param self)))))) (1 (call *Series1::y_crossings (param self) 0.0))))'
+        ok = len(sd) == 1 and (match(XB, cx.arg(sd[0], 0)) is not None or match(XB2, cx.arg(sd[0], 0)) is not None)
+        cx.ob('ORDER', 'Series1::bounds_at_y0:merged', ok,
+              'the interval boundaries are the zero crossings TOGETHER with x_min and x_max, sorted and de-duplicated as one list (a series that starts or ends exactly on zero does not get a degenerate interval)',
+              where=b.file, found=cx.arg(sd[0], 0) if sd else None)
+
+
 def run(cx):
+    index_of_rule(cx)
+    series_extra_rules(cx)
     try_from_stores_input(cx)
     # ---------------------------------------------------------------- ENC
     sites = E.enc(cx, DD, ('values',), constructors=[f'{DD}::try_from', f'{DD}::linear', 'common::discrete_domain::linear_space']) or []
